@@ -6,11 +6,14 @@ import (
 	"fmt"
 	"math/rand"
 	"net/netip"
+	"os"
+	"path/filepath"
 	"sort"
 	"strings"
 	"sync"
 	"testing"
 
+	"github.com/AdguardTeam/AdGuardHome/internal/aghnet"
 	"github.com/AdguardTeam/AdGuardHome/internal/filtering"
 	"github.com/AdguardTeam/AdGuardHome/internal/verifkit"
 	"github.com/miekg/dns"
@@ -50,6 +53,13 @@ func TestVerifC06Wire(t *testing.T) {
 	chrng := rep.Rand("chains")
 	for i, n := 0, verifkit.Pick(30, 300); i < n; i++ {
 		c06WireChain(rep, chrng)
+	}
+	hrng := rep.Rand("hostsfiles")
+	for i, n := 0, verifkit.Pick(20, 200); i < n; i++ {
+		c06WireHosts(rep, hrng)
+	}
+	if rep.ClassCount("hosts_files_queries") < 60 {
+		rep.Inconcl(fmt.Sprintf("only %d queries for names that are both in the table and in the hosts files", rep.ClassCount("hosts_files_queries")))
 	}
 	if rep.ClassCount("long_chain_queries:9plus_hops") < 20 {
 		rep.Inconcl(fmt.Sprintf("only %d queries nine or more hops from the end of a chain", rep.ClassCount("long_chain_queries:9plus_hops")))
@@ -372,6 +382,113 @@ func c06WireChain(rep *verifkit.Report, rng *rand.Rand) {
 			rep.Violate("wire:long-chain-not-followed-to-its-end:value", "a loop-free chain of rewrites that ends in an address of the table was not answered with the CNAME to its last name and that address, without upstream traffic", w)
 		case value == "" && (len(calls) != 1 || !strings.EqualFold(calls[0].Name, dns.Fqdn(names[l])) || !cnameOK):
 			rep.Violate("wire:long-chain-not-followed-to-its-end:leaves-table", "a loop-free chain of rewrites that leaves the table was not resolved upstream at its last name", w)
+		}
+	}
+}
+
+// c06WireNopWatcher is a file-system watcher for hosts files that never change.
+type c06WireNopWatcher struct{}
+
+func (c06WireNopWatcher) Start() (err error)          { return nil }
+func (c06WireNopWatcher) Close() (err error)          { return nil }
+func (c06WireNopWatcher) Events() (e <-chan struct{}) { return nil }
+func (c06WireNopWatcher) Add(_ string) (err error)    { return nil }
+
+// c06WireHosts serves a table whose names are also in the hosts files of the
+// filter (a generated file in the scratch directory, loaded into a hosts
+// container as home does), with other addresses and with the family the table
+// has no value for.  The meaning is known by construction: the table's value
+// and nothing else, an empty answer for the other family, the CNAME followed
+// to the table's value; the upstream is never asked.
+func c06WireHosts(rep *verifkit.Report, rng *rand.Rand) {
+	lbl := func() string { return string(rune('a'+rng.Intn(6))) + fmt.Sprint(rng.Intn(10)) }
+	exact, wild, alias, target := lbl()+".hosts.test", lbl()+".w.hosts.test", "alias-"+lbl()+".hosts.test", "target-"+lbl()+".hosts.test"
+	v := func() string { return fmt.Sprintf("10.7.%d.%d", rng.Intn(4), 1+rng.Intn(200)) }
+	vExact, vWild, vTarget := v(), v(), v()
+	rws := []*filtering.LegacyRewrite{
+		{Domain: exact, Answer: vExact}, {Domain: "*.w.hosts.test", Answer: vWild},
+		{Domain: alias, Answer: target}, {Domain: target, Answer: vTarget},
+	}
+	rng.Shuffle(len(rws), func(i, j int) { rws[i], rws[j] = rws[j], rws[i] })
+	var texts, hosts []string
+	for _, rw := range rws {
+		texts = append(texts, rw.Domain+" -> "+rw.Answer)
+	}
+	for _, n := range []string{exact, wild, alias, target} {
+		hosts = append(hosts, fmt.Sprintf("10.9.9.%d %s", 1+rng.Intn(250), n), fmt.Sprintf("fd99::%x %s", 1+rng.Intn(250), n))
+	}
+	dir, err := os.MkdirTemp(os.Getenv("VERIF_SCRATCH"), "hosts-")
+	if err != nil {
+		rep.Inconcl("scratch: " + err.Error())
+
+		return
+	}
+	defer func() { _ = os.RemoveAll(dir) }()
+	if err = os.WriteFile(filepath.Join(dir, "hosts"), []byte(strings.Join(hosts, "\n")+"\n"), 0o644); err != nil {
+		rep.Inconcl("scratch: " + err.Error())
+
+		return
+	}
+	hc, err := aghnet.NewHostsContainer(os.DirFS(dir), c06WireNopWatcher{}, "hosts")
+	if err != nil {
+		rep.Inconcl("hosts container: " + err.Error())
+
+		return
+	}
+	defer func() { _ = hc.Close() }()
+	vs, err := vkStart(&vkConf{Mode: filtering.BlockingModeDefault, Protection: true, FilteringEnabled: true, Rewrites: rws, EtcHosts: hc})
+	if err != nil {
+		rep.Inconcl("server start: " + err.Error())
+
+		return
+	}
+	defer vs.stop()
+	vs.Up.Script = c01UpstreamScript
+	rep.Class("hosts_files_tables")
+	cases := []struct {
+		name, kind, cname, want string
+		qt                      uint16
+	}{
+		{exact, "exact-value", "", vExact, dns.TypeA}, {exact, "exact-no-value-for-family", "", "", dns.TypeAAAA},
+		{wild, "wildcard-value", "", vWild, dns.TypeA}, {wild, "wildcard-no-value-for-family", "", "", dns.TypeAAAA},
+		{alias, "cname-followed", target, vTarget, dns.TypeA}, {target, "cname-target-value", "", vTarget, dns.TypeA},
+	}
+	for _, c := range cases {
+		qname := dns.Fqdn(c.name)
+		vs.Up.take()
+		resp, xerr := vkExchange(vs, "127.0.0.1", rng.Intn(5) == 0, qname, c.qt)
+		calls := vs.Up.take()
+		rep.Eval(true, strings.Join(texts, ";")+"|"+strings.Join(hosts, ";")+"|"+qname+fmt.Sprint(c.qt))
+		rep.Class("hosts_files_queries")
+		w := map[string]any{"table": texts, "hosts_file": hosts, "query": qname + " " + dns.TypeToString[c.qt],
+			"expected_address": c.want, "expected_cname": c.cname, "upstream_calls": calls}
+		if xerr != nil || resp == nil {
+			w["error"] = fmt.Sprint(xerr)
+			rep.Violate("wire:no-reply", "no well-formed reply", w)
+
+			continue
+		}
+		w["reply"] = resp.String()
+		var addrs, cnames []string
+		for _, rr := range resp.Answer {
+			switch a := rr.(type) {
+			case *dns.CNAME:
+				cnames = append(cnames, strings.ToLower(a.Target))
+			case *dns.A:
+				ip, _ := netip.AddrFromSlice(a.A.To4())
+				addrs = append(addrs, ip.String())
+			case *dns.AAAA:
+				ip, _ := netip.AddrFromSlice(a.AAAA)
+				addrs = append(addrs, ip.String())
+			}
+		}
+		wantCNAMEs := ""
+		if c.cname != "" {
+			wantCNAMEs = dns.Fqdn(c.cname)
+		}
+		if len(calls) != 0 || resp.Rcode != dns.RcodeSuccess || strings.Join(addrs, ",") != c.want || strings.Join(cnames, ",") != wantCNAMEs {
+			rep.Violate("wire:hosts-files-override-rewrite-table:"+c.kind,
+				"a name the rewrite table answers was not answered from the table (and only from it) although the hosts files know the name too", w)
 		}
 	}
 }
